@@ -94,7 +94,9 @@ def streams(tier, rng, P, only=None, cases=None):
         for j, (a, b) in enumerate([("Function SEL(INT T){ TR=T } SEL(3) c SEL(1) d SEL(3) e", "TR=3 c TR=1 d TR=3 e"),
                                     ("Function HEAD(){ TR=2 l8 cd } TR=1 c HEAD() e TrackSync TR=1 g", "TR=1 c TR=2 l8 cd e TrackSync TR=1 g"),
                                     ("#T2={TR=2} TR=1 c #T2 d TR=1 e", "TR=1 c TR=2 d TR=1 e"), ("Function K(){ TR(4) CH(3) } K() c d TR(1) e", "TR(4) CH(3) c d TR(1) e"),
-                                    ("Function W(N){ FOR(INT I=1;I<=N;I++){ TR=I c } } W(3) d", "TR=1 c TR=2 c TR=3 c d")]):
+                                    ("Function W(N){ FOR(INT I=1;I<=N;I++){ TR=I c } } W(3) d", "TR=1 c TR=2 c TR=3 c d"),
+                                    # TrackSync inside a Sub block moves the other tracks for good: only the current track's pointer is put back
+                                    ("TR(2) TR(1) r1 Sub{ TrackSync } TR(2) c", "TR(2) TR(1) r1 TrackSync TR(2) c")]):
             cs.append(dict(req="compile2 %s %s" % (hx(a), hx(b)), src=a, src2=b, show=a, sexp=None, ntr=3, key="fsel%d" % j))
         for j, (a, b) in enumerate([("TR(3) c TR(2) d TR(1) e", "TR(1) e TR(2) d TR(3) c")]):
             cs.append(dict(req="compile2 %s %s" % (hx(a), hx(b)), src=a, src2=b, show=a, sexp=None, ntr=3, key="fixed%d" % j))
@@ -106,6 +108,7 @@ def streams(tier, rng, P, only=None, cases=None):
         st, f = impl
         if st != "ok": return ("violation", "multi-track program did not compile: " + st)
         if f["bin1"] != f["bin2"]:
+            if c["key"].startswith("fsel"): return ("violation", "a track command inside a call or a block does not act like the command written out: %r vs %r" % (c["src"][:160], c["src2"][:160]))
             return ("violation", "re-ordering blocks of different tracks changed a track chunk: %r vs %r" % (c["src"][:160], c["src2"][:160]))
         if m and not m[0].startswith("ok holds=1"): return ("violation", "tracks differ from the semantics (default channels?): " + m[0][:300])
         return None
